@@ -385,7 +385,13 @@ func (p *parser) substituteAmpersandsInCompoundSelector(
 			results = append(results, replacement.Selectors[:last]...)
 			single = replacement.Selectors[last]
 			if strip == stripLeadingCombinator {
-				single.Combinator = css_ast.Combinator{}
+				// Only strip the combinator in front of the whole replacement
+				// ("> a"), not a combinator inside of it ("a > b")
+				if last == 0 {
+					single.Combinator = css_ast.Combinator{}
+				} else {
+					results[len(results)-last].Combinator = css_ast.Combinator{}
+				}
 			}
 			sel.Combinator = single.Combinator
 		} else if len(replacement.Selectors) == 1 {
